@@ -785,10 +785,19 @@ func runReuseStress(id string, parts []string) string {
 	idle := time.Duration(idleUs) * time.Microsecond
 	switch via {
 	case "transport":
+		dialUs := 0
+		if f["dialus"] != "" {
+			dialUs = hx.MustAtoi(f["dialus"])
+		}
 		t := transport.NewReuseConnTransport(transport.ReuseConnOpts{
 			DialContext: func(ctx context.Context) (net.Conn, error) {
 				var d net.Dialer
 				c, err := d.DialContext(ctx, "tcp", ln.Addr().String())
+				if dialUs > 0 {
+					// a dial that takes as long as the callers' patience: cancellations land around the moment the
+					// new connection is handed over
+					time.Sleep(time.Duration(rnd(dialUs)) * time.Microsecond)
+				}
 				if err == nil && slowClose > 0 {
 					return &c06SlowConn{c, time.Duration(slowClose) * time.Millisecond}, nil
 				}
